@@ -322,7 +322,7 @@ func TestVF_C30(t *testing.T) {
 		"(merge: min/max time, level+1, tombstones 0) until no plan is returned; oracle: plan members are distinct input blocks, >=2 or one block with tombstones, none no-compact marked (before or during the call), " +
 		"for non-overlapping aligned input the newest block is excluded and the plan fits one window of a configured range; the loop ends within len+#tombstoned steps; at the fixpoint the not-excluded blocks do not overlap " +
 		"and (aligned non-overlapping input) none is longer than the largest range; distinct = hash of the whole case; non-trivial = at least one non-empty plan")
-	n := r.N(20000, 1000000)
+	n := r.N(20000, 600000)
 	r.Require(int64(n), n/3)
 	r.Assume("Plan's documented precondition: metas of one group, sorted by MinTime, at least one meta, MaxTime > MinTime")
 	r.Assume("'many tombstones' is asserted in its weakest form: a single-block plan needs NumTombstones > 0")
